@@ -229,7 +229,34 @@ func H_C15_copy_race() {
 	vReach("c15-copy-race")
 }
 
+// H_C15_compose_race: a compose dst = dst + src overlapping a copy onto dst, all interleavings.
+// Both succeed; the result is one of the two serial outcomes: the copy's content (copy last) or the
+// copy's content followed by src (compose last). The old destination content never survives.
+func H_C15_compose_race() {
+	g := vNewEmu()
+	vPut(g, "b", "src", []byte("x"))
+	vPut(g, "b", "other", []byte("C"))
+	vPut(g, "b", "dst", []byte("old"))
+	wc, wp := vNewRecorder(), vNewRecorder()
+	vGo(func() {
+		r := &http.Request{Body: &vBody{decode: func(v interface{}) error {
+			req := v.(*storage.ComposeRequest)
+			req.Destination = &storage.Object{}
+			req.SourceObjects = []*storage.ComposeRequestSourceObjects{{Name: "dst"}, {Name: "src"}}
+			return nil
+		}}}
+		g.handleGcsCompose(vCtx(), dontNeedUrls, wc, r, "b", "dst/compose", emptyConds)
+	})
+	vGo(func() { g.handleGcsCopy(vCtx(), dontNeedUrls, wp, "b", "other/rewriteTo/b/b/o/dst") })
+	vJoin()
+	vAssert(wc.code == http.StatusOK && wp.code == http.StatusOK, "compose-race:both-succeed")
+	st := vSnap(g, "b", "dst")
+	vAssert(st.exists && (string(st.content) == "C" || string(st.content) == "Cx"), "compose-race:result-is-a-serial-outcome")
+	vReach("c15-compose-race")
+}
+
 func init() {
+	vHarnesses["H_C15_compose_race"] = H_C15_compose_race
 	vHarnesses["H_C15_copy_race"] = H_C15_copy_race
 	vHarnesses["H_C15_compose"] = H_C15_compose
 	vHarnesses["H_C15_copy"] = H_C15_copy
